@@ -353,7 +353,7 @@ def body(chk, db, cfgname):
                 r5.bad(site, f.loc(), "no full iterator loop over %s" % w[1].split("::")[-1], cfgname)
                 continue
             j, shp = cands[wi]
-            exits = [e for e in shp["exits"]]
+            exits = [e for e in shp["exits"]] + [e for e in shp.get("continues", [])]
             if exits:
                 r5.bad(site, f.loc(exits[0][0]), "'%s' inside the bulk loop: some elements are skipped" % exits[0][1], cfgname)
             else:
